@@ -164,3 +164,38 @@ Proof.
   destruct n as [a len | a len sc]; cbn [expand]; [eauto|].
   unfold expand6. apply oall_ok. intros x Hx. apply in_map_iff in Hx. destruct Hx as [sub [<- _]]. apply pat6_ok.
 Qed.
+
+(* ------------------------------------------------------------------ the rendered query means what the pattern list means *)
+(* the structure the model renders *)
+Definition render_struct (or_as_in allow_wild : bool) (pats : list str) : rquery :=
+  if as_in_list or_as_in allow_wild pats then RIn pats else ROr pats.
+
+Definition pat_chars (p : str) : bool := forallb (fun c => plainc c || (c =? c_star)) p.
+
+Lemma literal_pattern p t : pat_chars p = true -> has_special p = false -> pat_matches p t = str_eqb p t.
+Proof.
+  intros Hc Hs. assert (Hp : forallb plainc p = true).
+  { unfold pat_chars in Hc. rewrite forallb_forall in *. intros c Hin. specialize (Hc c Hin).
+    unfold has_special in Hs. destruct (plainc c) eqn:E; [reflexivity|]. cbn [orb] in Hc.
+    assert (X : existsb (fun c => (c =? c_star) || (c =? c_qm)) p = true).
+    { apply existsb_exists. exists c. split; [exact Hin|]. rewrite Hc. reflexivity. }
+    congruence. }
+  unfold pat_matches. rewrite <- (app_nil_r p) at 1. rewrite iparse_plain_app by exact Hp.
+  cbn [iparse]. rewrite app_nil_r. apply Bool.eq_iff_eq_true. rewrite wild_lits, str_eqb_eq. split; congruence.
+Qed.
+
+(* whatever the two in-list options are, the query the model renders - read with the semantics the backend
+   declares for value lists - matches exactly the texts the pattern list matches *)
+Lemma render_semantics or_as_in allow_wild pats t :
+  forallb pat_chars pats = true ->
+  rquery_matches allow_wild (render_struct or_as_in allow_wild pats) t = covered pats t.
+Proof.
+  intros Hc. unfold render_struct, as_in_list, covered.
+  destruct or_as_in; cbn [andb]; [|reflexivity].
+  destruct allow_wild; cbn [orb]; [reflexivity|].
+  destruct (existsb has_special pats) eqn:E; cbn [negb]; [reflexivity|].
+  cbn [rquery_matches]. unfold value_matches.
+  induction pats as [|p pats IH]; [reflexivity|]. cbn [existsb forallb] in *.
+  apply andb_true_iff in Hc. destruct Hc as [Hp Hc]. apply orb_false_iff in E. destruct E as [E1 E2].
+  rewrite (literal_pattern p t Hp E1), IH by assumption. reflexivity.
+Qed.
